@@ -5,7 +5,8 @@ Python expression syntax, compiled by the engine's spec evaluator."""
 
 class Behaviour(object):
     def __init__(self, name, ghost=None, requires=(), ensures=None, raises=None, modifies=(), hints=(),
-                 split=(), calls=None, result=None, unfold_depth=2, loops=None, assumes=(), native_build=None, init=None, native=None, sets=None, noreturn=False, effects=None, reveal=(), returns_when=(), params=None, clock=False):
+                 split=(), calls=None, result=None, unfold_depth=2, loops=None, assumes=(), native_build=None, init=None, native=None, sets=None, noreturn=False, effects=None, reveal=(), returns_when=(), params=None, clock=False, trusted=False):
+        self.trusted = trusted                      # this behaviour is ASSUMED (an interface view), not verified against the body
         self.clock = clock                          # the function reads the clock / lets time pass: `now` advances over a call
         self.params = dict(params or {})            # per-behaviour parameter sorts (override the contract's)
         self.returns_when = list(returns_when)      # conditions (on the entry state) under which a normal return is possible at all
